@@ -1,0 +1,105 @@
+// SPDX-FileCopyrightText: 2026 The Pion community <https://pion.ly>
+// SPDX-License-Identifier: MIT
+
+//go:build verif
+
+package webrtc
+
+// Contracts for C07 (an answer mirrors the offer's m-sections one-for-one). Comments
+// only; syntax in /verif/DESIGN.md section 4.
+
+// Assumed contracts: the SDP scanners only read (pion/sdp data is not written), and the
+// mid / kind of a remote media section are functions of that section.
+//@ func getMidValue
+//@ trusted
+//@ props C07
+//@ ensures result == ufstr("midOf", media)
+//@ modifies nothing
+//@ func getPeerDirection
+//@ trusted
+//@ props C07
+//@ modifies nothing
+//@ func getSctpInit
+//@ trusted
+//@ props C07
+//@ modifies nothing
+//@ func getRids
+//@ trusted
+//@ props C07
+//@ modifies nothing
+//@ func rtpExtensionsFromMediaDescription
+//@ trusted
+//@ props C07
+//@ modifies nothing
+//@ func isExtMapAllowMixedSet
+//@ trusted
+//@ props C07
+//@ modifies nothing
+//@ func descriptionIsPlanB
+//@ trusted
+//@ props C07
+//@ modifies nothing
+//@ func descriptionPossiblyPlanB
+//@ trusted
+//@ props C07
+//@ modifies nothing
+//@ func (*SCTPTransport).GetSctpInit
+//@ trusted
+//@ props C07
+//@ modifies nothing
+//@ func (*RTPSender).setNegotiated
+//@ trusted
+//@ props C07
+//@ modifies r.negotiated
+//@ func (*RTPTransceiver).Sender
+//@ inline
+//@ func NewRTPCodecType
+//@ pure
+
+// generateMatchedSDP, answer side under Unified Plan: the section list handed to the
+// SDP builder has one entry per m-section of the remote description, in the same order,
+// carrying that section's mid; an application section is a data entry, every other entry
+// holds exactly one transceiver and that transceiver has the section's mid.
+//@ func (*PeerConnection).generateMatchedSDP #answer
+//@ props C07
+//@ nosafety
+//@ requires pcValid(pc) && !includeUnmatched && pc.configuration.SDPSemantics == SDPSemanticsUnifiedPlan
+//@ requires pc.currentRemoteDescription != nil || pc.pendingRemoteDescription != nil
+//@ atcall populateSDP assert len(callarg10) == rangelen
+//@ loop 0 invariant len(mediaSections) == rangeindex + 1 && rangeindex < rangelen
+
+// ---- every section of the list becomes exactly one m-section of the description
+// Assumed contract on pion/sdp: WithMedia appends one media description (ghost counter
+// mediaAdded) and does not write this package's memory.
+//@ func (*sdp.SessionDescription).WithMedia
+//@ trusted
+//@ props C07
+//@ ghost mediaAdded += 1
+//@ modifies nothing
+
+// A transceiver section adds exactly one m-section on success (none on error); a section
+// for which no codec is available is still added, rejected in place: port 0, the
+// transceiver's kind.
+//@ func addTransceiverSDP
+//@ props C07
+//@ nosafety
+//@ atcall (*sdp.SessionDescription).WithMedia assert ghost(mediaAdded) == old(ghost(mediaAdded))
+//@ atcall (*sdp.SessionDescription).WithMedia assert len(codecs) == 0 ==> callarg1.MediaName.Port.Value == 0
+//@ atcall (*sdp.SessionDescription).WithMedia assert len(codecs) == 0 && (transceiver.kind == RTPCodecTypeAudio || transceiver.kind == RTPCodecTypeVideo) ==> callarg1.MediaName.Media == transceiver.kind.String()
+//@ ensures err == nil ==> ghost(mediaAdded) == old(ghost(mediaAdded)) + 1
+//@ ensures err != nil ==> ghost(mediaAdded) == old(ghost(mediaAdded))
+
+//@ func addDataMediaSection
+//@ props C07
+//@ nosafety
+//@ ensures err == nil ==> ghost(mediaAdded) == old(ghost(mediaAdded)) + 1
+//@ ensures err != nil ==> ghost(mediaAdded) == old(ghost(mediaAdded))
+
+// populateSDP: on success the description gained exactly len(mediaSections) m-sections,
+// one per entry, in list order.
+//@ func populateSDP
+//@ props C07
+//@ nosafety
+//@ requires descr != nil
+//@ ensures err == nil ==> ghost(mediaAdded) == old(ghost(mediaAdded)) + uint64(len(mediaSections))
+//@ loop 0 invariant ghost(mediaAdded) == old(ghost(mediaAdded)) + uint64(rangeindex + 1) && rangeindex < len(mediaSections)
